@@ -92,7 +92,7 @@ def run(ctx):
 
     # 3. replay into config.Load for every registered option
     r = harness(ctx, cases, "C15 replay",
-                env={"VERIF_C15_EXTRA_EVERY": ctx.pick(6, 1), "VERIF_C15_DEEP_EVERY": ctx.pick(4, 1), "VERIF_C15_HIST": hcases,
+                env={"VERIF_C15_EXTRA_EVERY": ctx.pick(8, 1), "VERIF_C15_DEEP_EVERY": ctx.pick(4, 1), "VERIF_C15_HIST": hcases,
                      "VERIF_C15_HIST_EVERY": ctx.pick(12, 1), "VERIF_C15_DEG_FEW": ctx.pick(3, 12), "VERIF_C15_NBR_EVERY": ctx.pick(3, 1),
                      "VERIF_C15_ROBUST": ctx.pick(4000, 60000)})
     if r is None:
